@@ -24,13 +24,34 @@ MANIFEST = dict(
         "assign_alias_correct: the aliasing forms =,+=,-=,*=,/= yield f(old target, rhs on the old memory) for every "
         "right-hand side, also when it reads the target; assign_noalias_correct / assign_noalias_elementwise_correct for "
         "the in-place forms under disjointness resp. same-index reads; (iii) orientation_irrelevant for all shapes and "
-        "proxy_index_* for nested dense proxies. The model is tied to the real code by an exact correspondence: "
-        "generated programs of typed statements (all assignment forms, explicit aliasing, proxies, products, reductions, "
-        "shapes incl. 0 and 1) compiled per run against the repo headers with and without REMORA_USE_CBLAS under "
-        "ASan/UBSan, compared value-for-value with the model run on rationals, plus an independent naive-loop oracle."),
+        "proxy_index_* for nested dense proxies; (iv) kernels: foldFrom_max_spec / foldFrom_min_spec / "
+        "rowFold_max_is_row_maximum / rowFold_min_is_row_minimum (the first-element-seeded row fold IS the maximum / minimum "
+        "of the line for data of any sign, over any linear order), foldRowsBlocked_correct (the blocked column-major fold "
+        "kernel equals the denotation for every block size and shape), sumTiled_correct (tiling the inner dimension of a "
+        "product into ceil(K/T) tiles starting at b*T of min(T,K-b*T) columns gives the defining sum, for every T>0 and K), "
+        "strided_disjoint_of_extent (two strided proxies are disjoint when the LAST cell base+(size-1)*stride of one lies "
+        "before the other), each with a witness that the neighbouring wrong variant (zero seed, tile start b*current, extent "
+        "base+size) differs. The model is tied to the real code by an exact correspondence: "
+        "(a) a DIRECTED program, run in both tiers: aliasing assignment between every ordered pair of dense proxy kinds of one "
+        "storage (row/column/diagonal/linearisation and sub-ranges of them in several nested spellings; container/transpose/"
+        "sub-matrix/rows/columns), target behind, before and on the source, plain and all compound forms, bare proxies and "
+        "expressions of them, row- and column-major, square/wide/tall, plus block-wise right-hand sides reading the target; "
+        "all six row-wise reductions over rows and over columns of row- and column-major containers, proxies and element-wise "
+        "expressions, scalar reductions of vectors/strided proxies/matrices (incl. matrix norm_1/norm_inf, frobenius_prod) on "
+        "all-negative/all-positive/mixed/one-signed-line/constant/zero data; gemm/gemv/trmm/trmv/mixed-orientation assignment "
+        "with container, proxy and expression operands on shapes just below, at, just above and far from every blocking "
+        "constant of kernels/default and kernels/cblas that the expression layer reaches (gemm MR=4 NR=6 MC=128 KC=512 "
+        "NC=1020, BLAS fallback tile 512, fold_rows 16, transposing assign 8/16, trmv/trmm 128) and 0/1-sized; "
+        "(b) generated programs of typed statements (all assignment forms, explicit aliasing incl. two proxies of one "
+        "variable, proxies, products incl. triangular, reductions, value classes of one sign, shapes incl. 0 and 1); both "
+        "compiled per run against the repo headers with and without REMORA_USE_CBLAS under "
+        "ASan/UBSan, compared value-for-value with the model run on rationals, plus an independent naive-loop oracle "
+        "(defining formulas on plain std::vector copies) that turns a disagreement into a concrete failing input."),
   note=TRUST + "floating-point rounding is not modelled (data are kept exactly representable, comparison is exact); "
        "kernel dispatch (default/cblas kernels, blockwise vs element-wise evaluation), the template meta-program that "
-       "selects which rule fires, sparse containers and reductions are exercised by the correspondence only; the "
+       "selects which rule fires, sparse containers, the packing/micro-kernels of the block gemm and the BLAS library itself are "
+       "exercised by the correspondence only (the theorems of (iv) are about the blocking index arithmetic and the fold, "
+       "not about the C++ text); shapes beyond the listed boundary values are sampled, not exhausted; the "
        "assignment theorems are about the element loop on an abstract lawful memory, the hand-written model is tied by "
        "the correspondence, the rule table by translation.",
   technique="Lean 4 proof over a deep embedding + per-run translation of the rewrite-rule table into lemmas + differential correspondence with generated C++ programs (ASan/UBSan, both BLAS configurations)",
@@ -39,10 +60,12 @@ MANIFEST = dict(
 FINISH = dict(level="proof",
               rule="generated programs of typed remora statements (expression trees of bounded depth over dense "
                    "row/column-major matrices and vectors, proxies, all assignment forms, explicit aliasing) from one "
-                   "SplitMix64 stream; a statement is non-trivial if its right-hand side has depth >= 1; distinct = distinct op text")
+                   "SplitMix64 stream, preceded by the directed program (structure fixed in the quick tier, data from the seed; "
+                   "counted separately as directed_evaluations); a statement is non-trivial if its right-hand side has depth >= 1; "
+                   "distinct = distinct op text")
 
 LAKE_TARGETS = ["SharkVerif.Props.C01", "SharkVerif.Gen.RemoraRules", "SharkVerif.Gen.RemoraOpt", "drv_c01"]
-JOBS = 4
+JOBS = int(os.environ.get("C01_JOBS", "4"))
 # one thread in the harness: OpenMP/OpenBLAS worker threads spin-wait, which makes the many short harness
 # runs of a shrink very slow on a loaded machine (and a single thread keeps the kernels' summation order fixed)
 os.environ.setdefault("OMP_NUM_THREADS", "1")
